@@ -256,11 +256,13 @@ def evaluate(case, res):
                 if table != trace.ACT or new is None:
                     continue
                 if old is None:
-                    lh = new.get('last_heartbeat')
-                    if isinstance(lh, str):
-                        lh = datetime.datetime.strptime(
-                            lh[:19], '%Y-%m-%d %H:%M:%S')
-                    last_hb[id_] = lh
+                    # deadline of the first heartbeat: creation time plus
+                    # the configured grace period (from the property, not
+                    # from the stored column)
+                    fht = o.get('action_heartbeat.first_heartbeat_timeout',
+                                0)
+                    last_hb[id_] = _sec(res.recorder.commit_times[cno]) + \
+                        datetime.timedelta(seconds=fht)
                     continue
                 out_ = new.get('output') or {}
                 if old.get('state') == 'RUNNING' and \
